@@ -196,10 +196,9 @@ pub fn run_case(base: &Base, c: &HandleCase) -> Option<(String, String)> {
                     if n > (1u64 << 48) {
                         // no compound file can hold a stream of this size: the call must be refused (a byte
                         // vector could not be resized either) and change nothing
-                        match s.set_len(n) {
-                            Ok(()) => return Err(bad(format!("set_len({}) returned Ok", n))),
-                            Err(e) if e.kind() == std::io::ErrorKind::InvalidInput => {}
-                            Err(e) => return Err(bad(format!("set_len({}) failed with {:?} ({}), expected InvalidInput", n, e.kind(), e))),
+                        // (the property names InvalidInput for seeks only: any error value is accepted here)
+                        if s.set_len(n).is_ok() {
+                            return Err(bad(format!("set_len({}) returned Ok", n)));
                         }
                     } else {
                         s.set_len(n).map_err(|e| bad(format!("set_len({}) failed: {}", n, e)))?;
